@@ -216,6 +216,8 @@ def main():
             signal.setitimer(signal.ITIMER_REAL, 10, 1)
             mm = metamodel_from_str(case["grammar"], **case.get("opts", {}))
             d = pegdump.dump_metamodel(mm)
+            mm_on = metamodel_from_str(case["grammar"], memoization=True, **case.get("opts", {}))
+            d_on = pegdump.dump_metamodel(mm_on)
             signal.setitimer(signal.ITIMER_REAL, 0)
         except Timeout:
             res["grammar_error"] = "Timeout"
@@ -243,6 +245,7 @@ def main():
                 run["tree"], run["tokens"], run["comments"] = analyse(d, parser, text)
                 run["model"] = load(mm, text)
                 run["table"] = d.oracle_table(text)
+                run["tree_on"] = pegdump.parse_outcome(d_on, mm_on._parser_blueprint.clone(), text)
                 signal.setitimer(signal.ITIMER_REAL, 0)
             except Timeout:
                 run["timeout"] = True
@@ -274,6 +277,7 @@ def main():
                     m["tree"] = pegdump.parse_outcome(d, mm._parser_blueprint.clone(), mt)
                     m["model"] = load(mm, mt)
                     m["table"] = d.oracle_table(mt)
+                    m["tree_on"] = pegdump.parse_outcome(d_on, mm_on._parser_blueprint.clone(), mt)
                     signal.setitimer(signal.ITIMER_REAL, 0)
                 except Timeout:
                     m["timeout"] = True
